@@ -142,7 +142,7 @@ type msg struct {
 func networks(t *testing.T) {
 	n, perBundle, schedules := 24, 8, 8
 	if drv.Thorough() {
-		n, perBundle, schedules = 300, 10, 8
+		n, perBundle, schedules = 150, 10, 8
 	}
 	type job struct {
 		nets []kpn
